@@ -86,3 +86,26 @@ Definition bounded_wait_schedule : list label :=
   [CallStart; StepC; StepC; StepC; StepC; StepC; StepC;
    StepL; StepL; StepL; StepL; StepL;                       (* alive, alive, publish inside, test run = true, body entered *)
    CallStop; StepC; StepC; StepC; StepC].                   (* run := false; inside = true -> spin; bound elapsed; return *)
+
+(* ------------------------------------------------------------------------------------------------------------
+   Third variant: start() signals the condition variable BEFORE it publishes the flag:
+     if (!shouldBeRunning) { notify_one(); { lock; shouldBeRunning = true; } }
+   A sleeper woken by that early notify re-evaluates the predicate (still false) and goes back to sleep; the flag is then
+   written and nobody notifies again.  Everything else is the Repaired system. *)
+Definition nstep (l : launch) (s : state) (lab : label) : option state :=
+  match lab, cp s with
+  | StepC, SChk => Some (set_cp (notify s) SNot)                                       (* notify first *)
+  | StepC, SNot => if mfree s then Some (set_cp (set_mtx s MC) SLocked) else None      (* then lock ... *)
+  | StepC, SUnl => Some (set_cp s SRet)                                                (* ... write, unlock, and no notify *)
+  | _, _ => step (l, Repaired) s lab
+  end.
+Fixpoint nrun (l : launch) (s : state) (ls : list label) : option state :=
+  match ls with
+  | [] => Some s
+  | x :: q => match nstep l s x with Some s' => nrun l s' q | None => None end
+  end.
+Definition early_notify_schedule : list label :=
+  [StepL; StepL; StepL; StepL; StepL; StepL; StepL; StepL; StepL;    (* the loop thread goes to sleep *)
+   CallStart; StepC;                                                 (* start(): test, NOTIFY *)
+   StepL; StepL; StepL; StepL;                                       (* woken: re-lock, predicate false (flag not yet written), sleep again *)
+   StepC; StepC; StepC; StepC; StepC].                               (* lock, shouldBeRunning := true, unlock, (no notify), return *)
